@@ -76,6 +76,10 @@ P = {
          "and on the real Part::write / Render::write the exact sequence of writer calls (text verbatim; hole = first-wins property value through the formatter if any, else {label}; stop at first error); the four forwarding members of impl Write for &mut W run the inner writer's own method (removal fails a wrapper's postcondition); Render::as_literal / with_props / to_value; Part constructors and formatter hooks; Template::parts iterator",
          "trusted: Str/Formatter/Value mirrors (uninterpreted views), Template::as_literal mirror (slice pattern rejected by Verus), Write/Props trait mirrors, cmp::min spec; macro-generated templates not covered",
          "contract-based deductive verification (Verus on mechanically extracted functions)", "8 C16"),
+ "C19": (True, "other",
+         "call-shape contracts (partial): Verus proves on the real text of all 41 capture impls and the 15 __private_capture_* hooks of src/macro_hooks.rs that every hook reaches exactly its mode's trait and every mode calls exactly its value-bag constructor on the value itself (capture_* typed vs from_* anonymous distinguished), that Option captures and the optional-map hooks yield nothing for None and exactly one map call for Some, on core/src/value.rs that the Value constructors, by_ref, to_owned/to_shared, downcast/borrow accessors and the written-out ToValue/FromValue impls hand the bag on unchanged, and on macros/src that the attribute -> hook-identifier table (hooks(), capture_as, default_fn_name, rename closures) is the documented one; a change that rewires a mode, hook or conversion fails a named obligation",
+         "partial: the MEANING of each value-bag / sval / serde constructor (typed pull-back, exact formatting, structure, source chain) is the dependencies' and is trusted; macro_rules!-generated primitive conversions, quote! templates, the syn visitor and Value's own Display/sval/serde impls are not covered (specs/assumptions/C19.txt)",
+         "contract-based deductive verification (Verus call-shape contracts on mechanically extracted functions)", "8 C19 / 13.8"),
  "C15": (True, "proof",
          "Verus proves, for every input, the contracts of the real calendar/format/parse functions extracted from /repo on each run; "
          "a code change that breaks a contract fails a named obligation; Kind parser / Display round trip, Value::parse (visitor callbacks) and as_f64 fallback order, id hex codecs and flags (Kani, complete over all lengths that pass the length test)",
